@@ -88,6 +88,9 @@ pub fn render_all(sess: &Session, conflict: &resolvo::conflict::Conflict, ctx: &
     match sess.render(conflict, cap, 2000) {
         Caught::Ok((over, n, text)) => {
             ctx.rep.max("max-render-bytes", n as u64);
+            if cyclic && text.contains(" | ") {
+                ctx.rep.count("cyclic-conflict-graphs-rendered-with-merged-groups");
+            }
             ctx.rep.max("max-render-permille-of-budget", (n as u64 * 1000) / cap as u64);
             if over {
                 ctx.violation(
@@ -169,6 +172,81 @@ pub fn cyclic_universe(r: &mut Rng) -> (Universe, Prob) {
     (u, Prob { reqs: vec![Req::Single(root)], cons: vec![], soft: vec![] })
 }
 
+/// A universe in which a dependency CYCLE of packages is uninstallable under every version of a
+/// selector package, for a different reason per version (one member of the cycle needs the other
+/// selector version; the selector version that would allow it constrains away something another
+/// member needs), so that the whole cycle ends up in the conflict. All versions of a cycle
+/// package have identical dependencies (most of the time), i.e. the message shows them as merged
+/// groups and the cycle runs through merged groups only.
+pub fn cyclic_merged(r: &mut Rng) -> (Universe, Prob) {
+    let mut u = Universe::default();
+    let m = 2 + r.below(3) as usize; // cycle length
+    let nv = 2 + r.below(2) as u32; // versions per cycle package
+    let names: Vec<String> = (0..m).map(|i| format!("m{i}")).collect();
+    let nsel = 2 + r.below(2) as u32;
+    for v in 1..=nsel {
+        u.solv("sel", v);
+    }
+    for nm in &names {
+        for v in 1..=nv {
+            u.solv(nm, v);
+        }
+    }
+    for v in 1..=2 {
+        u.solv("w", v);
+    }
+    let needs_sel = r.below(m as u64) as usize; // this member needs sel=1
+    let needs_w = r.below(m as u64) as usize; // this member needs w=2
+    let distinct = r.chance(1, 5); // sometimes the versions differ (no merging)
+    for i in 0..m {
+        for v in 1..=nv {
+            let s = u.solv(&names[i], v);
+            let next = u.vs(&names[(i + 1) % m], 1, nv + 1);
+            if i == needs_w {
+                let w2 = u.vs("w", 2, 3);
+                u.add_req(s, Req::Single(w2));
+            }
+            u.add_req(s, Req::Single(next));
+            if i == needs_sel {
+                let s1 = u.vs("sel", 1, 2);
+                u.add_req(s, Req::Single(s1));
+            }
+            if distinct && v == 1 {
+                let any_w = u.vs("w", 1, 3);
+                u.add_req(s, Req::Single(any_w));
+            }
+        }
+    }
+    // sel=1 allows the member that needs it but rules out w=2; the other versions enter the cycle
+    // somewhere and can never have the member that needs sel=1
+    let sel1 = u.solv("sel", 1);
+    let w1 = u.vs("w", 1, 2);
+    u.add_con(sel1, w1);
+    let entry1 = u.vs(&names[r.below(m as u64) as usize], 1, nv + 1);
+    u.add_req(sel1, Req::Single(entry1));
+    for v in 2..=nsel {
+        let s = u.solv("sel", v);
+        let entry = u.vs(&names[r.below(m as u64) as usize], 1, nv + 1);
+        u.add_req(s, Req::Single(entry));
+    }
+    let root = u.vs("sel", 1, nsel + 1);
+    u.finalize();
+    match r.below(3) {
+        0 => {
+            for p in &mut u.pkgs {
+                p.hint = Hint::All;
+            }
+        }
+        1 => {
+            for p in &mut u.pkgs {
+                p.hint = if r.chance(1, 2) { Hint::All } else { Hint::None };
+            }
+        }
+        _ => {}
+    }
+    (u, Prob { reqs: vec![Req::Single(root)], cons: vec![], soft: vec![] })
+}
+
 /// Everything C04 does for one case, used for the hand-written corpus too.
 fn exercise(c: &SolverCase, ctx: &mut Ctx) {
     C04.check(c, ctx)
@@ -192,7 +270,7 @@ impl Monitor for C04 {
         let (name, _) = pick_family(r, &FAMILIES[..FAMILIES.len() - 1]);
         let pick_cyclic = r.chance(3, 20);
         let (name, (u, p)) = if pick_cyclic {
-            ("cyclic", cyclic_universe(r))
+            if r.chance(1, 3) { ("cyclic-merged", cyclic_merged(r)) } else { ("cyclic", cyclic_universe(r)) }
         } else if r.chance(1, 10) {
             ("soft-backjump", gener::soft_backjump(r))
         } else if r.chance(1, 12) {
